@@ -22,9 +22,11 @@ VARIABLES init,  \* the array at call time
           pv,    \* pivot value
           i, j,  \* cursors (0-based, as in the code)
           pc,    \* "Start" | "ScanI" | "ScanJ" | "Cmp" | "done" | "panic"
-          ret
+          ret,
+          perm   \* ghost (history): perm[x] = original 0-based position of the element now at 0-based position x
 
-vars == <<init, p0, arr, pv, i, j, pc, ret>>
+vars == <<init, p0, arr, pv, i, j, pc, ret, perm>>
+SwapF(f, x, y) == [f EXCEPT ![x] = f[y], ![y] = f[x]]
 
 Positions(n) == IF OutOfRange THEN 0..(n + 1) \cup {BIG} ELSE 0..(n - 1)
 
@@ -32,14 +34,15 @@ Init ==
     /\ \E n \in NMin..N : init \in Patterns(n)
     /\ p0 \in Positions(Len(init))
     /\ arr = init /\ pv = 0 /\ i = 0 /\ j = 0 /\ pc = "Start" /\ ret = 0
+    /\ perm = [x \in 0..(Len(init) - 1) |-> x]
 
 (* sort.rs:151-155 *)
 Start ==
     /\ pc = "Start"
     /\ IF p0 >= Len(arr)
-       THEN pc' = "panic" /\ UNCHANGED <<arr, pv, i, j>>        \* index panic of `self[pivot_index]'
+       THEN pc' = "panic" /\ UNCHANGED <<arr, pv, i, j, perm>>        \* index panic of `self[pivot_index]'
        ELSE /\ pv' = At(arr, p0)
-            /\ arr' = Swap(arr, p0, 0)
+            /\ arr' = Swap(arr, p0, 0) /\ perm' = SwapF(perm, p0, 0)
             /\ i' = 1
             /\ j' = Len(arr) - 1
             /\ pc' = "ScanI"
@@ -51,7 +54,7 @@ StepI ==
     /\ IF i > j THEN pc' = "ScanJ" /\ i' = i
        ELSE IF At(arr, i) >= pv THEN pc' = "ScanJ" /\ i' = i
        ELSE i' = i + 1 /\ pc' = "ScanI"
-    /\ UNCHANGED <<init, p0, arr, pv, j, ret>>
+    /\ UNCHANGED <<init, p0, arr, pv, j, ret, perm>>
 
 (* sort.rs:166-171 *)
 StepJ ==
@@ -61,17 +64,17 @@ StepJ ==
             ELSE IF j = 0 THEN pc' = "panic" /\ j' = j           \* WrapUsize / overflow panic
             ELSE j' = j - 1 /\ pc' = "ScanJ"
        ELSE pc' = "Cmp" /\ j' = j
-    /\ UNCHANGED <<init, p0, arr, pv, i, ret>>
+    /\ UNCHANGED <<init, p0, arr, pv, i, ret, perm>>
 
 (* sort.rs:172-181 *)
 Cmp ==
     /\ pc = "Cmp"
     /\ IF i >= j
-       THEN /\ arr' = Swap(arr, 0, i - 1)
+       THEN /\ arr' = Swap(arr, 0, i - 1) /\ perm' = SwapF(perm, 0, i - 1)
             /\ ret' = i - 1
             /\ pc' = "done"
             /\ UNCHANGED <<i, j>>
-       ELSE /\ arr' = Swap(arr, i, j)
+       ELSE /\ arr' = Swap(arr, i, j) /\ perm' = SwapF(perm, i, j)
             /\ i' = i + 1
             /\ j' = j - 1
             /\ pc' = "ScanI"
